@@ -2168,8 +2168,21 @@ def stream_measure_observables(ctx, cirq, count):
     against <psi|P|psi>.  Fixed sampler seeds make the run deterministic; the acceptance band is 6 standard errors, so an
     unbiased estimator stays inside it and a sign/rotation slip (which moves the mean by O(1)) does not."""
     import numpy as np
+    import itertools
     rng = ctx.rng
     reps = 2500
+    cases = []
+    # fixed for every seed: every Pauli letter (one qubit) and every pair of letters (two qubits) on its +1 eigenstate and on a
+    # state with expectation 1/2-ish, with and without readout symmetrization
+    eig = {cirq.X: lambda q: cirq.H(q), cirq.Y: lambda q: cirq.X(q) ** -0.5, cirq.Z: lambda q: cirq.I(q)}
+    for sym in (True, False):
+        for l in (cirq.X, cirq.Y, cirq.Z):
+            q = cirq.LineQubit(0)
+            cases.append((cirq.Circuit(eig[l](q)), [q], cirq.PauliString({q: l}), [l], sym))
+            cases.append((cirq.Circuit(eig[l](q), cirq.rx(0.7)(q), cirq.ry(0.4)(q)), [q], cirq.PauliString({q: l}) * -0.5, [l], sym))
+        for l0, l1 in itertools.product((cirq.X, cirq.Y, cirq.Z), repeat=2):
+            qs = cirq.LineQubit.range(2)
+            cases.append((cirq.Circuit(eig[l0](qs[0]), eig[l1](qs[1])), qs, cirq.PauliString({qs[0]: l0, qs[1]: l1}), [l0, l1], sym))
     for i in range(count):
         n = rng.randint(1, 2)
         qs = cirq.LineQubit.range(n)
@@ -2183,7 +2196,8 @@ def stream_measure_observables(ctx, cirq, count):
             obs = cirq.PauliString({qs[0]: letters[0]}) * rng.choice([1.0, 0.5, -1.0])
         else:
             obs = cirq.PauliString({q: l for q, l in zip(qs, letters)}) * rng.choice([1.0, 0.5, -1.0])
-        sym = rng.random() < 0.6
+        cases.append((prep, qs, obs, letters, rng.random() < 0.6))
+    for i, (prep, qs, obs, letters, sym) in enumerate(cases):
         psi = cirq.final_state_vector(prep, qubit_order=qs)
         exact = float(np.real(obs.expectation_from_state_vector(psi, {q: k for k, q in enumerate(qs)})))
         try:
